@@ -254,6 +254,7 @@ func (c *Caller) begin(ctx context.Context) []call {
 	}
 	responder := make(chan []call, 1)
 	if !c.send(id, responder) {
+		verifPoint("begin.beforeRegister", id)
 		c.responders.Upsert(id, responder, func(exist bool, valueInMap interface{}, newValue interface{}) interface{} {
 			if exist {
 				valueInMap.(chan []call) <- nil
